@@ -82,6 +82,8 @@ ASSUMPTIONS = [
     "last length tojson in *args unpacking 'is iterable' printing string ~)",
     "excluded, counted (known finding F41: async unique / slice / sum list their input when called, the sync ones lazily): pipelines "
     "in which evaluating the input of a unique / slice stage or of a sum sink raises (decided by listing that input in the sync environment)",
+    "excluded, counted (F53 again): every native case with undefined=StrictUndefined (an output chunk may raise in str()); "
+    "(F41 again): under StrictUndefined a join sink whose input raises when listed",
     "excluded, counted (finding F53: native sync render() converts output values to str while the template is "
     "still running, render_async afterwards, so with two failing places a different error wins): native template sets that "
     "print an imported module object (its str() raises TypeError in a native environment)",
@@ -183,6 +185,12 @@ class AsyncOb:
 
     def __repr__(self):
         return "<ob>"
+
+
+# the async twins carry the name of their sync counterpart: error messages and DebugUndefined texts name the type
+AFn.__name__ = AFn.__qualname__ = gdata.Fn.__name__
+AFn.__module__ = gdata.Fn.__module__
+AsyncOb.__name__ = AsyncOb.__qualname__ = SyncOb.__name__
 
 
 def _helpers(wrapped):
@@ -694,7 +702,7 @@ def _prints_module(ir):
 def _plan_tset(case, allow_known=False):
     ir, data = case["ir"], case["data"]
     if case.get("cls") == "native" and not allow_known and _prints_module(ir):
-        # known finding F42-candidate (native sync render interleaves str() of output values with rendering, render_async
+        # known finding F53 (native sync render interleaves str() of output values with rendering, render_async
         # renders everything first): str(module) raises TypeError in a native environment; which error wins differs
         raise core.Excluded()
     templates = tsets.print_set(ir)
@@ -926,7 +934,7 @@ def pipe_source(p):
     elif sink == "alias":
         # the copy made by |list is changed through a method call; the original and the identity test are printed
         # (nothing is changed after it was printed: a native sync render converts outputs to str while the template is
-        # still running, render_async afterwards -- finding C09-NATIVE-ORDER)
+        # still running, render_async afterwards -- finding F53)
         stmt = "{% set c = " + P + "|list %}{% set _ = c.append(9) %}{{ c }}|{{ xs }}|{{ c is sameas xs }}"
     elif sink == "twice":
         stmt = "{% set g = " + P + " %}{{ g|list }}|{{ g|list }}|{{ g|first|default('none') }}"
@@ -1017,7 +1025,9 @@ def _plan_pipe(case, allow_known=False):
             pre = "pre%d" % i
             templates[pre] = "{% set r = " + _src_src(p["src"]) + "".join(_stage_src(s) for s in p["stages"][:i]) + "|list %}"
             prechecks.append(pre)
-    if p["sink"][0] == "sum" and not allow_known:
+    if (p["sink"][0] == "sum" or (p["sink"][0] == "join" and case.get("undef") == "strict")) and not allow_known:
+        # (async join lists its input before converting the items, the sync one converts while it pulls: only str() of a
+        # StrictUndefined item can raise, so join needs the pre-check only under strict undefined -- F41 as well)
         # since 240d1bf the async sum lists its input too; the builtin sum of the sync side adds while it pulls
         templates["presum"] = "{% set r = " + _src_src(p["src"]) + "".join(_stage_src(s) for s in p["stages"]) + "|list %}"
         prechecks.append("presum")
@@ -1066,6 +1076,11 @@ def _plan_pipe(case, allow_known=False):
 def _check(case, allow_known=False):
     _setup()
     fam = case["fam"]
+    if case.get("cls") == "native" and case.get("undef") == "strict" and not allow_known and fam != "raw":
+        # known finding F53 (native sync render converts output chunks to str while the template is still running,
+        # render_async afterwards): with StrictUndefined an output chunk can raise in str(), so a later error of the
+        # template wins in async mode only.  Input class native x strict: excluded, counted.
+        raise core.Excluded()
     if fam == "stmt":
         plan = _plan_stmt(case)
     elif fam == "expr":
